@@ -81,6 +81,22 @@ TOUNI: List[Optional[Tuple[list, list]]] = [
     # one stream holding several begincmap .. endcmap sections (a map with supplements appended): all of them count
     ("sections", [([(b"\x41", "X")], []), ([(b"\x42", "Y"), (b"\x01", "Q")], [(b"\x61", b"\x63", "α")])]),
     ("sections", [([], [(b"\x30", b"\x32", ["A", "BC", "D"])]), ([(b"\x43", "ffi")], []), ([(b"\x7f", "Z")], [(b"\x80", b"\x82", "Ā")])]),
+    # the same code defined twice: the later entry wins, except the library's documented guard that a code mapped to
+    # SPACE is not re-mapped to NO-BREAK SPACE
+    ("raw",
+     b"/CIDInit /ProcSet findresource begin\n12 dict begin\nbegincmap\n/CMapName /Adobe-Identity-UCS def\n/CMapType 2 def\n"
+     b"1 begincodespacerange\n<00> <FF>\nendcodespacerange\n"
+     b"1 beginbfrange\n<41> <43> <0061>\nendbfrange\n"
+     b"2 beginbfchar\n<42> <00A0>\n<44> <0020>\nendbfchar\n"
+     b"1 beginbfrange\n<44> <45> <00A0>\nendbfrange\n"
+     b"1 beginbfchar\n<46> <0058>\nendbfchar\n"
+     b"1 beginbfrange\n<46> <46> <00A0>\nendbfrange\n"
+     b"2 beginbfchar\n<47> <00A0>\n<47> <0059>\nendbfchar\n"
+     b"2 beginbfrange\n<48> <49> [<0050> <0051>]\n<48> <49> [<00A0> <0020>]\nendbfrange\n"
+     b"1 beginbfchar\n<49> <00A0>\nendbfchar\n"
+     b"endcmap\nCMapName currentdict /CMap defineresource pop\nend\nend\n",
+     {0x41: "a", 0x42: "\u00a0", 0x43: "c", 0x44: " ", 0x45: "\u00a1", 0x46: "\u00a0", 0x47: "Y", 0x48: "\u00a0", 0x49: " "},
+     []),
     # entries whose destination is the empty string, on codes the encoding maps as well: the ToUnicode entry still wins
     ([(b"\x42", ""), (b"\x43", "Y"), (b"\x61", ""), (b"\x01", "")], [(b"\x30", b"\x32", ["A", "", "C"])]),
     # blocks in which malformed entries stand between well-formed ones: a malformed entry is skipped (the codes it
@@ -162,7 +178,7 @@ BOUNDS = {"quick": {"deviations": 3, "shards": 96}, "thorough": {"deviations": 5
 
 META = {
     "rule": (
-        "font family: every choice vector over (subtype 4, base encoding 7, encoding form 2, Differences 11, ToUnicode 13 (two with several begincmap..endcmap sections, one with malformed entries between well-formed ones, one with empty destinations), "
+        "font family: every choice vector over (subtype 4, base encoding 7, encoding form 2, Differences 11, ToUnicode 14 (two with several begincmap..endcmap sections, one with malformed entries between well-formed ones, one with empty destinations, one defining codes twice), "
         "widths 14, Type3 FontMatrix 5, embedded Type 1 header 8 (two whose vector gives no code a Unicode value, one naming the boundary codes 0, 1, 255, 256, -1), spelling 2) with at most `deviations` non-default "
         "choices (default = Type1, WinAnsi name, no Differences, no ToUnicode, Widths from 32 + MissingWidth), minus the "
         "combinations that are not fonts (Type3 x standard-14, FontMatrix on non-Type3, FontFile on TrueType/Type3/"
